@@ -1,36 +1,42 @@
 #!/usr/bin/env python3
 """
-cli_src_robustness.py -- robustness self-test of the main.rs translation (tools/rs2lean_cli.py) and its proofs.
+cli_src_robustness.py -- robustness / sensitivity regression test of the CLI translation (tools/rs2lean_cli.py: src/cli/src/main.rs
+and commands.rs -> lean/KestrelModel/GeneratedCli.lean) and of its proofs (KestrelProofs / KestrelProps . Cli{Src,CmdSrc,StreamSrc,GenKeySrc,FullSrc}).
 
-For each change to a COPY of the Rust sources: run the translator; if it accepts, put the generated file in place, rebuild
-the Cli*Src proof and property modules and (for changes that must be caught) also run the generated argument handling
-against the model (tools/cli_src_compare.py).  The original generated file is restored at the end.
+For a list of HARMLESS changes of the Rust sources the translator must still translate (exit 0) and all the proof / property modules
+must still build; for a list of BREAKING changes the translator must refuse (exit 3) or a proof must fail to build.  Rows whose
+expected outcome is something else (a known refusal of a harmless rewrite, a breaking patch outside the translated part) carry the
+expected outcome in the table KNOWN below, with the reason; they count as "as expected" only when exactly that happens.
 
-  breaking changes  must be refused (exit 3) or translated and break the proof;
-  harmless rewrites should be accepted with the proofs still going through.
-  usage: cli_src_robustness.py [--only NAME]
+  * the changes are: every seeded/B*-b*/patch.diff (harmless) and every seeded/C*-m*/patch.diff (breaking) whose diff touches
+    src/cli/src/main.rs, commands.rs or errors.rs (the others are counted as "not applicable"), and the hand-made edits of HAND below
+    (text substitutions, some on top of a seeded harmless patch: "a harmless rewrite with a mistake in it");
+  * every change is applied to a scratch copy of repo-src/, translated with `--repo <scratch>` into a scratch copy of the lake
+    project (lean/ with its build directory, one copy per worker), and built there with `lake build <modules>`;
+  * everything lives in a temporary directory created inside this working copy and removed at the end; repo-src/ and the
+    committed lean/ are only read;
+  * row `base` is the unchanged source: it must translate to exactly the committed generated file and build;
+  * a breaking row with `proof` in its expectation must be caught BY A FAILING PROOF (a refusal is then not as expected): these are
+    the misuses of constructs the translator accepts;
+  * exit status 0 iff every row is as expected.   Environment: SELFTEST_JOBS=<n> workers (default 4), SELFTEST_KEEP=1 keeps the
+    scratch directory, SELFTEST_ONLY=<substring,substring> runs only the rows whose name contains one of the substrings.
 """
-import os, sys, shutil, subprocess, tempfile, time
+import os, re, shutil, subprocess, sys, tempfile, time, queue
+from concurrent.futures import ThreadPoolExecutor
 
-HERE = os.path.dirname(os.path.abspath(__file__))
-ROOT = os.path.normpath(os.path.join(HERE, '..'))
-# the pristine Rust sources: repo-src/ inside a development copy, otherwise $KESTREL_REPO, otherwise /repo (only read, copied to a scratch directory)
+ROOT = os.path.dirname(os.path.dirname(os.path.abspath(__file__)))
 PRISTINE = os.path.join(ROOT, 'repo-src') if os.path.isdir(os.path.join(ROOT, 'repo-src')) else os.environ.get('KESTREL_REPO', '/repo')
-LEAN = os.path.join(ROOT, 'lean')
-GEN = os.path.join(LEAN, 'KestrelModel', 'GeneratedCli.lean')
-SRC = PRISTINE
-TARGETS = ['KestrelProofs.CliSrc', 'KestrelProps.CliSrc', 'KestrelProofs.CliCmdSrc', 'KestrelProps.CliCmdSrc',
-           'KestrelProofs.CliStreamSrc', 'KestrelProps.CliStreamSrc', 'KestrelProofs.CliGenKeySrc', 'KestrelProps.CliGenKeySrc']
+MAIN, CMDS = 'src/cli/src/main.rs', 'src/cli/src/commands.rs'
+TOUCH = [MAIN, CMDS, 'src/cli/src/errors.rs']
+TRANSLATOR = os.path.join(ROOT, 'tools', 'rs2lean_cli.py')
+GENERATED = os.path.join('KestrelModel', 'GeneratedCli.lean')
+MODULES = ['KestrelProofs.CliSrc', 'KestrelProps.CliSrc', 'KestrelProofs.CliCmdSrc', 'KestrelProps.CliCmdSrc',
+           'KestrelProofs.CliStreamSrc', 'KestrelProps.CliStreamSrc', 'KestrelProofs.CliGenKeySrc', 'KestrelProps.CliGenKeySrc',
+           'KestrelProofs.CliFullSrc', 'KestrelProps.CliFullSrc']
 
-
-def sub(text, old, new, count=1, nth=0):
-    """replace the nth (0-based) occurrence (count=1) or all occurrences (count=0)"""
-    assert old in text, f'pattern not found: {old!r}'
-    if count == 0: return text.replace(old, new)
-    parts = text.split(old)
-    assert len(parts) > nth + 1, f'occurrence {nth} of {old!r} not found'
-    return old.join(parts[:nth + 1]) + new + old.join(parts[nth + 1:])
-
+# ---------------------------------------------------------------------------------------------- hand-made edits
+# (name, kind, seeded patches applied first, [(file, old, new, number of occurrences expected)], what it is)
+#   kind: 'harmless' | 'breaking' (refusal or failing proof) | 'breaking-proof' (must be caught by a failing proof)
 
 FREE_BLOCK = '''    if matches.free.len() > 1 {
         return Err("Invalid usage".to_string());
@@ -45,95 +51,292 @@ fn at_most_one_free(matches: &getopts::Matches) -> Result<(), String> {
     Ok(())
 }
 '''
+INFILE_ENC = '''    let infile = if matches.free.len() == 1 {
+        Some(matches.free[0].clone())
+    } else {
+        None
+    };
 
+    let to = matches.opt_str("t").unwrap();
+    let from'''
 
-def m1(t): return sub(t, '"dec" | "decrypt" => {\n            let args = slice_args(&args, 2);', '"decrypt" => {\n            let args = slice_args(&args, 2);')
-def m2(t): return sub(t, 'decrypt_opts.reqopt("t", "to", "Recipient key name", "NAME");', 'decrypt_opts.optopt("t", "to", "Recipient key name", "NAME");')
-def m3(t): return sub(t, 'if matches.free.len() > 1 {', 'if matches.free.len() >= 1 {')
-def m4(t): return sub(t, 'let env_pass = matches.opt_present("env-pass");', 'let env_pass = true;')
-def m5(t): return sub(t, 'if args.len() <= 1 || args.contains(&"--help") || args.contains(&"-h") {', 'if args.len() <= 1 || args[1] == "--help" || args[1] == "-h" {')
-def m6(t): return sub(sub(t, '"gen" | "generate" => {', '"generate" => {'), '"change-pass" => {', '"gen" | "change-pass" => {')
-def h1(t):
-    t = sub(t, 'encrypt_opts', 'eopts', count=0)
-    t = sub(t, '    let infile = if matches.free.len() == 1 {\n        Some(matches.free[0].clone())\n    } else {\n        None\n    };\n\n    let to = matches.opt_str("t").unwrap();\n    let from',
-            '    let input_file = if matches.free.len() == 1 {\n        Some(matches.free[0].clone())\n    } else {\n        None\n    };\n\n    let to = matches.opt_str("t").unwrap();\n    let from')
-    return sub(t, '    Ok(EncryptOptions {\n        infile,', '    Ok(EncryptOptions {\n        infile: input_file,')
-def h2(t):
-    assert t.count(FREE_BLOCK) == 4
-    return t.replace(FREE_BLOCK, '    at_most_one_free(&matches)?;\n') + HELPER
-
-
-CASES = [
-    ('1-alias-dec-removed', 'break', m1),
-    ('2-reqopt-t-to-optopt-in-parse_decrypt', 'break', m2),
-    ('3-free-len-gt-1-to-ge-1', 'break', m3),
-    ('4-opt_present-env-pass-to-true', 'break', m4),
-    ('5-help-check-only-args1', 'break', m5),
-    ('6-gen-alias-to-ChangePass', 'break', m6),
-    ('H1-rename-locals', 'harmless', h1),
-    ('H2-free-check-into-helper', 'harmless', h2),
+HAND = [
+    # ---- the rows of the first version of this test
+    ('X1-alias-dec-removed', 'breaking', [], [(MAIN, '"dec" | "decrypt" => {\n            let args = slice_args(&args, 2);', '"decrypt" => {\n            let args = slice_args(&args, 2);', 1)],
+     'alias `dec` removed from try_main'),
+    ('X2-reqopt-t-to-optopt', 'breaking', [], [(MAIN, 'decrypt_opts.reqopt("t", "to", "Recipient key name", "NAME");', 'decrypt_opts.optopt("t", "to", "Recipient key name", "NAME");', 1)],
+     '`-t` of decrypt no longer required'),
+    ('X3-free-len-ge-1', 'breaking', [], [(MAIN, 'if matches.free.len() > 1 {', 'if matches.free.len() >= 1 {', 4)], '`> 1` -> `>= 1` in the free-argument test'),
+    ('X4-env-pass-true', 'breaking', [], [(MAIN, 'let env_pass = matches.opt_present("env-pass");', 'let env_pass = true;', 7)], '`--env-pass` always on'),
+    ('X5-help-only-args1', 'breaking', [], [(MAIN, 'if args.len() <= 1 || args.contains(&"--help") || args.contains(&"-h") {', 'if args.len() <= 1 || args[1] == "--help" || args[1] == "-h" {', 1)],
+     'help only as the first argument'),
+    ('X6-gen-alias-to-ChangePass', 'breaking', [], [(MAIN, '"gen" | "generate" => {', '"generate" => {', 1), (MAIN, '"change-pass" => {', '"gen" | "change-pass" => {', 1)],
+     'alias `gen` moved to change-pass'),
+    ('H1-rename-locals', 'harmless', [],
+     [(MAIN, 'encrypt_opts', 'eopts', 13),
+      (MAIN, INFILE_ENC, INFILE_ENC.replace('let infile =', 'let input_file ='), 1),
+      (MAIN, '    Ok(EncryptOptions {\n        infile,', '    Ok(EncryptOptions {\n        infile: input_file,', 1)],
+     'locals of parse_encrypt renamed'),
+    ('H2-free-check-into-helper', 'harmless', [], [(MAIN, FREE_BLOCK, '    at_most_one_free(&matches)?;\n', 4), (MAIN, '\nfn parse_key(', HELPER + '\nfn parse_key(', 1)],
+     'the free-argument test extracted into a helper'),
+    # ---- harmless: hand-made uses of the constructs of the second batch (matches!, slice patterns, guards on a binding)
+    ('H3-matches-slice', 'harmless', [], [(MAIN, 'if args.is_empty() {\n        return Err("Invalid usage".to_string());\n    }\n\n    match args[0] {\n        "gen"',
+                                           'if matches!(args, []) {\n        return Err("Invalid usage".to_string());\n    }\n\n    match args[0] {\n        "gen"', 1)],
+     'parse_key tests for no arguments with `matches!(args, [])`'),
+    ('H4-matches-guard', 'harmless', [], [(MAIN, 'if args.is_empty() {\n        return Err("Invalid usage".to_string());\n    }\n\n    match args[0] {\n        "gen"',
+                                           'if matches!(args.len(), n if n < 1) {\n        return Err("Invalid usage".to_string());\n    }\n\n    match args[0] {\n        "gen"', 1)],
+     'parse_key tests for no arguments with `matches!(args.len(), n if n < 1)`'),
+    # ---- breaking: a mistake inside each construct the translator accepts since the second batch -- each must be caught BY A PROOF
+    ('X7-b6-guard-arms-swapped', 'breaking-proof', ['B7-b6'],
+     [(CMDS, 'None if isatty(Stream::Stdin) => Err(anyhow!("Please specify an input file.")),\n        None => Ok(Box::new(std::io::stdin())),',
+       'None if isatty(Stream::Stdin) => Ok(Box::new(std::io::stdin())),\n        None => Err(anyhow!("Please specify an input file.")),', 1)],
+     'B7-b6 (match guards) with the bodies of the guarded arm and of its fall-through arm exchanged'),
+    ('X8-b6-guard-on-wrong-arm', 'breaking', ['B7-b6'],
+     [(CMDS, 'Some(p) => Ok(Box::new(OnDemandFile::new(p))),', 'Some(p) if is_text => Ok(Box::new(OnDemandFile::new(p))),\n        Some(_) => Err(anyhow!("Please specify an output file.")),', 1)],
+     'B7-b6 with a guard on the `Some` arm of open_output: a named output file is refused for binary output'),
+    ('X9-b5-tuple-component-negated', 'breaking-proof', ['B7-b5'], [(CMDS, '(Box::new(file), already_exists)', '(Box::new(file), !already_exists)', 1)],
+     'B7-b5 (tuple pattern in `let`) yielding the wrong second component: a new keyring file starts with a newline'),
+    ('X10-b5-tuple-arms-swapped', 'breaking-proof', ['B7-b5'],
+     [(CMDS, 'let (mut keyring, leading_newline): (Box<dyn Write>, bool)', 'let (mut keyring, _unused): (Box<dyn Write>, bool)', 1),
+      (CMDS, 'let key_output = if leading_newline {', 'let leading_newline = false;\n    let key_output = if leading_newline {', 1)],
+     'B7-b5 ignoring the destructured flag: a key appended to an existing keyring is not set off by a newline'),
+    ('X11-b2-map-wrong-constructor', 'breaking-proof', ['B8-b2'], [(MAIN, 'parse_pass_encrypt(args).map(PasswordCommand::Encrypt)', 'parse_pass_encrypt(args).map(PasswordCommand::Decrypt)', 1)],
+     'B8-b2 (`.map(Constructor)`) wrapping the options of `password encrypt` as a Decrypt command'),
+    ('X12-b2-map_err-swallows', 'breaking-proof', ['B8-b2'],
+     [(MAIN, 'let matches = gen_opts.parse(args).map_err(|e| e.to_string())?;', 'let matches = gen_opts.parse(slice_args(args, 1)).map_err(|e| e.to_string())?;', 1)],
+     'B8-b2 whose `key generate` parses the arguments cut once more'),
+    ('X13-b1-slice-pattern-drops-file', 'breaking-proof', ['B8-b1'], [(MAIN, '[infile] => Ok(Some(infile.clone())),', '[_infile] => Ok(None),', 1)],
+     'B8-b1 (slice patterns) whose one-element arm forgets the input file'),
+    ('X14-b1-slice-pattern-two-files', 'breaking', ['B8-b1'], [(MAIN, '[infile] => Ok(Some(infile.clone())),', '[infile] | [infile, _] => Ok(Some(infile.clone())),', 1)],
+     'B8-b1 accepting two free arguments (an or-pattern that binds: refused, or a failing proof)'),
+    ('X15-b3-get-wrong-split', 'breaking-proof', ['B8-b3'], [(MAIN, 'args.get(idx..).unwrap_or(&[])', 'args.get(idx + 1..).unwrap_or(&[])', 1)],
+     'B8-b3 (`slice::get(range)` / `unwrap_or`) cutting one argument too many'),
+    ('X16-b3-collect-ignores-non-utf8', 'breaking-proof', ['B8-b3'],
+     [(MAIN, '.map(str::to_string)\n                .ok_or_else(|| anyhow!("Arguments must be valid UTF-8"))', '.map(str::to_string)\n                .ok_or_else(|| anyhow!("Arguments must be valid"))', 1)],
+     'B8-b3 (`collect` into a Result) with another error for an argument that is not UTF-8'),
+    ('X17-b3-const-wrong', 'breaking-proof', ['B7-b3'], [(CMDS, 'const ENV_PASSWORD: &str = "KESTREL_PASSWORD";', 'const ENV_PASSWORD: &str = "KESTREL_NEW_PASSWORD";', 1)],
+     'B7-b3 (named constants) whose password variable is the one for the new password'),
+    ('X18-b3-nested-pattern-swapped', 'breaking-proof', ['B7-b3'],
+     [(CMDS, 'match std::env::var(ENV_KEYRING) {\n            Ok(loc) => PathBuf::from(loc),\n            Err(std::env::VarError::NotPresent) => {\n                return Err(anyhow!(\n                    "Specify a keyring with -k or set the KESTREL_KEYRING env var"\n                ));\n            }',
+       'match std::env::var(ENV_KEYRING) {\n            Ok(loc) => PathBuf::from(loc),\n            Err(std::env::VarError::NotPresent) => PathBuf::from("keyring.txt"),', 1)],
+     'B7-b3 (nested `Err(VarError::..)` patterns) falling back to a default keyring file when the variable is not set'),
+    ('X19-b1-helper-ne', 'breaking-proof', ['B7-b1'], [(CMDS, '        if infile == outfile {\n            return Err(anyhow!("Input and output files must be different."));', '        if infile != outfile {\n            return Err(anyhow!("Input and output files must be different."));', 1)],
+     'B7-b1 whose helper refuses DIFFERENT paths'),
+    ('X20-matches-slice-one', 'breaking-proof', [], [(MAIN, 'if args.is_empty() {\n        return Err("Invalid usage".to_string());\n    }\n\n    match args[0] {\n        "gen"',
+                                           'if matches!(args, [_]) {\n        return Err("Invalid usage".to_string());\n    }\n\n    match args[0] {\n        "gen"', 1)],
+     'H3 with the pattern `[_]`: `key gen` without options is refused (and no arguments index out of range)'),
+    ('X21-matches-guard-lt-2', 'breaking-proof', [], [(MAIN, 'if args.is_empty() {\n        return Err("Invalid usage".to_string());\n    }\n\n    match args[0] {\n        "gen"',
+                                           'if matches!(args.len(), n if n < 2) {\n        return Err("Invalid usage".to_string());\n    }\n\n    match args[0] {\n        "gen"', 1)],
+     'H4 with the guard `n < 2`'),
+    ('X22-b4-loop-guard-never', 'breaking-proof', ['B7-b4'], [(CMDS, 'if env_pass || !passterm::isatty(Stream::Stdin) {', 'if env_pass && passterm::isatty(Stream::Stdin) {', 2)],
+     'B7-b4 (restructured unlock loops) whose early return is never taken: with --env-pass the same wrong password is tried again and again'),
+    ('X23-b5-separator-swapped', 'breaking-proof', ['B7-b5'], [(CMDS, 'let separator = if isatty(Stream::Stdout) { "\\n" } else { "" };', 'let separator = if isatty(Stream::Stdout) { "" } else { "\\n" };', 1)],
+     'B7-b5 whose change-pass separator has its branches exchanged'),
+    ('X24-b5-hoisted-rest-wrong-index', 'breaking-proof', ['B8-b5'], [(MAIN, 'let rest = slice_args(&args, 2);', 'let rest = slice_args(&args, 1);', 1)],
+     'B8-b5 (hoisted `slice_args`) cutting at the wrong position'),
 ]
 
+# rows whose expected outcome is not the default one: name -> (expected prefix of the outcome, reason)
+#   outcomes: 'accepted' (translates and builds), 'refused', 'proof' (translates, a proof fails), 'unchanged' (the generated file is
+#   the committed one: the change is outside the translated part)
+KNOWN = {
+    'C08-m3': ('accepted', 'the changed `eprintln!` is in the branch of the unlock loop that asks again on a terminal; no terminal is attached in the setting of the '
+                           'model (RsCli.isatty = false), so the translated function is equal on every state of the model (the change is caught by the differential harness)'),
+    'B8-b4': ('refused', 'KNOWN REFUSAL: `let command: fn(PasswordOptions) -> PasswordCommand = match .. { .. => PasswordCommand::Encrypt, .. }` needs function-typed '
+                         'values (not in the subset); and the patch removes parse_pass_encrypt / parse_pass_decrypt, which cli_source_parse_pass_encrypt / _decrypt name'),
+}
 
-def run(cmd, **kw):
+# ---------------------------------------------------------------------------------------------- machinery
+
+
+def sh(cmd, cwd, env=None, timeout=3600):
+    p = subprocess.run(cmd, cwd=cwd, env=env, stdout=subprocess.PIPE, stderr=subprocess.STDOUT, timeout=timeout)
+    return p.returncode, p.stdout.decode('utf-8', 'replace')
+
+
+def files_of_patch(path):
+    out = set()
+    with open(path, encoding='utf-8', errors='replace') as f:
+        for line in f:
+            m = re.match(r'^(?:\+\+\+|---) [ab]/(\S+)', line)
+            if m: out.add(m.group(1))
+    return out
+
+
+def apply_patch(patch, tree):
+    rc, out = sh(['patch', '-p1', '-s', '-f', '--no-backup-if-mismatch', '-i', patch], tree)
+    if rc != 0:
+        raise RuntimeError(f'patch does not apply: {out.strip()[:200]}')
+
+
+def first_error(out):
+    lines = out.splitlines()
+    for l in lines:
+        m = re.match(r'^error: (\S+\.lean):(\d+):(\d+): (.*)$', l)
+        if m:
+            return f'{"/".join(m.group(1).split("/")[-2:])}:{m.group(2)}: {m.group(4)[:70]}'
+    for l in lines:
+        if 'error' in l: return l.strip()[:110]
+    return (lines[-1].strip()[:110] if lines else '?')
+
+
+def decl_at(lean_file, lineno):
+    """name of the declaration containing the line (for the table)"""
+    try:
+        with open(lean_file, encoding='utf-8') as f: ls = f.read().split('\n')
+    except OSError:
+        return ''
+    pat = re.compile(r'^(?:@\[[^\]]*\]\s*)?(?:private\s+)?(theorem|lemma|def|example|instance|abbrev)\b\s*(\S*)')
+    i = min(lineno, len(ls)) - 1
+    rng = range(i, min(i + 12, len(ls))) if ls[i].lstrip().startswith('/-') else range(i, -1, -1)
+    for j in rng:
+        m = pat.match(ls[j])
+        if m: return 'example' if m.group(1) == 'example' else m.group(2)
+    return ''
+
+
+class Case:
+    def __init__(self, name, kind, patches, edits, what):
+        self.name, self.kind, self.patches, self.edits, self.what = name, kind, patches, edits, what
+        self.translate = self.build = self.verdict = self.outcome = ''
+        self.ok = False
+        self.secs = 0.0
+
+
+def run_case(case, tmp, workers):
     t0 = time.time()
-    p = subprocess.run(cmd, capture_output=True, text=True, **kw)
-    return p.returncode, (p.stdout + p.stderr), time.time() - t0
+    tree = os.path.join(tmp, 'repo-' + case.name)
+    try:
+        os.makedirs(os.path.join(tree, 'src'))
+        shutil.copytree(os.path.join(PRISTINE, 'src', 'cli'), os.path.join(tree, 'src', 'cli'))
+        for p in case.patches:
+            pd = os.path.join(ROOT, 'seeded', p, 'patch.diff')
+            # only the part of the patch that is about the CLI crate (the other crates are not copied)
+            with open(pd, encoding='utf-8', errors='replace') as f: text = f.read()
+            parts = re.split(r'(?m)^(?=diff --git )', text)
+            keep = ''.join(x for x in parts if re.match(r'diff --git a/src/cli/', x))
+            part = os.path.join(tree, f'{p}.diff')
+            with open(part, 'w', encoding='utf-8') as f: f.write(keep)
+            apply_patch(part, tree)
+        for rel, old, new, count in case.edits:
+            path = os.path.join(tree, rel)
+            with open(path, encoding='utf-8') as f: text = f.read()
+            if text.count(old) != count:
+                raise RuntimeError(f'edit `{old.strip()[:40]}` matches {text.count(old)} times, expected {count}')
+            text = text.replace(old, new)
+            with open(path, 'w', encoding='utf-8') as f: f.write(text)
+    except Exception as ex:
+        case.translate, case.verdict, case.outcome = f'SETUP ERROR: {ex}', 'ERROR', 'error'
+        return case
+    w = workers.get()
+    try:
+        gen = os.path.join(w, GENERATED)
+        committed = os.path.join(ROOT, 'lean', GENERATED)
+        shutil.copyfile(committed, gen)
+        rc, out = sh([sys.executable, TRANSLATOR, '--repo', tree, '--out', gen], ROOT)
+        if rc == 3:
+            msg = out.strip().split('unsupported construct', 1)[-1].strip()
+            case.translate, case.build, case.outcome = f'refused(3): {msg[:120]}', '-', 'refused'
+        elif rc != 0:
+            case.translate, case.build, case.outcome = f'EXIT {rc}: {out.strip()[-100:]}', '-', 'error'
+        else:
+            case.translate = 'ok'
+            with open(gen, 'rb') as f1, open(committed, 'rb') as f2:
+                same = f1.read() == f2.read()
+            if case.name == 'base':
+                case.translate = 'ok, = committed file' if same else 'ok, DIFFERS from the committed file'
+            elif same:
+                case.translate = 'ok, generated file unchanged'
+            rc2, out2 = sh(['lake', 'build'] + MODULES, w)
+            if rc2 == 0:
+                case.build = 'ok'
+                case.outcome = 'unchanged' if same and case.name != 'base' else 'accepted'
+            else:
+                fe = first_error(out2)
+                m = re.match(r'^(\S+\.lean):(\d+): ', fe)
+                where = ''
+                if m and os.path.exists(os.path.join(w, m.group(1))):
+                    d = decl_at(os.path.join(w, m.group(1)), int(m.group(2)))
+                    if d: where = f' [{d}]'
+                case.build = f'FAILS{where}: {fe}'
+                case.outcome = 'proof'
+    finally:
+        workers.put(w)
+    if not os.environ.get('SELFTEST_KEEP'): shutil.rmtree(tree, ignore_errors=True)
+    if case.name in KNOWN:
+        want = KNOWN[case.name][0]
+        case.ok = case.outcome == want
+        case.verdict = f'ok (known: {want})' if case.ok else f'NOT AS KNOWN ({want})'
+    elif case.kind == 'harmless':
+        case.ok = case.outcome in ('accepted', 'unchanged') and 'DIFFERS' not in case.translate
+        case.verdict = 'ok (accepted)' if case.ok else 'FALSE ALARM'
+    elif case.kind == 'breaking-proof':
+        case.ok = case.outcome == 'proof'
+        case.verdict = 'ok (caught by a proof)' if case.ok else ('REFUSED, not caught by a proof' if case.outcome == 'refused' else 'NOT CAUGHT')
+    else:
+        case.ok = case.outcome in ('refused', 'proof')
+        case.verdict = 'ok (caught)' if case.ok else ('NOT CAUGHT' if case.outcome in ('accepted', 'unchanged') else 'ERROR')
+    case.secs = time.time() - t0
+    return case
 
 
 def main():
-    only = None
-    if len(sys.argv) == 3 and sys.argv[1] == '--only': only = sys.argv[2]
-    backup = GEN + '.orig'
-    shutil.copyfile(GEN, backup)
-    results = []
+    if len(sys.argv) > 1:
+        print(__doc__); return 2
+    jobs = max(1, int(os.environ.get('SELFTEST_JOBS', '4')))
+    only = [s for s in os.environ.get('SELFTEST_ONLY', '').split(',') if s]
+    cases = [Case('base', 'harmless', [], [], 'unchanged source')]
+    na, nb = [], []
+    for d in sorted(os.listdir(os.path.join(ROOT, 'seeded'))):
+        p = os.path.join(ROOT, 'seeded', d, 'patch.diff')
+        m = re.match(r'^([BC])\d+-[bm]\d+$', d)
+        if not m or not os.path.exists(p): continue
+        touches = bool(files_of_patch(p) & set(TOUCH))
+        if m.group(1) == 'B':
+            if touches: cases.append(Case(d, 'harmless', [d], [], 'seeded harmless patch'))
+            else: nb.append(d)
+        elif touches:
+            cases.append(Case(d, 'breaking', [d], [], 'seeded breaking patch'))
+        else:
+            na.append(d)
+    for name, kind, patches, edits, what in HAND:
+        cases.append(Case(name, kind, patches or [], edits, what))
+    if only: cases = [c for c in cases if c.name == 'base' or any(s in c.name for s in only)]
+    tmp = tempfile.mkdtemp(prefix='.selftest_cli_', dir=ROOT)
+    t0 = time.time()
     try:
-        for name, kind, fn in CASES:
-            if only and only != name: continue
-            tmp = tempfile.mkdtemp(prefix='clirob-')
-            repo = os.path.join(tmp, 'repo')
-            os.makedirs(os.path.join(repo, 'src', 'cli', 'src'))
-            shutil.copyfile(os.path.join(SRC, 'src', 'cli', 'Cargo.toml'), os.path.join(repo, 'src', 'cli', 'Cargo.toml'))
-            for f in ('main.rs', 'commands.rs'):
-                shutil.copyfile(os.path.join(SRC, 'src', 'cli', 'src', f), os.path.join(repo, 'src', 'cli', 'src', f))
-            mp = os.path.join(repo, 'src', 'cli', 'src', 'main.rs')
-            with open(mp) as f: text = f.read()
-            with open(mp, 'w') as f: f.write(fn(text))
-            out = os.path.join(tmp, 'GeneratedCli.lean')
-            shutil.copyfile(backup, out)
-            rc, log, _ = run([sys.executable, os.path.join(HERE, 'rs2lean_cli.py'), '--repo', repo, '--out', out])
-            if rc == 3:
-                results.append((name, kind, 'REFUSED: ' + log.strip().split('\n')[-1]))
-                shutil.rmtree(tmp); continue
-            if rc != 0:
-                results.append((name, kind, f'translator error {rc}: {log.strip()}')); shutil.rmtree(tmp); continue
-            shutil.copyfile(out, GEN)
-            rc, log, dt = run(['lake', 'build'] + TARGETS, cwd=LEAN)
-            if rc == 0:
-                verdict = f'translated; PROOFS GO THROUGH ({dt:.0f} s)'
-            else:
-                errs = [l for l in log.split('\n') if l.startswith('error:')]
-                first = errs[0][:160] if errs else log.strip().split('\n')[-1][:160]
-                verdict = f'translated; PROOF BREAKS ({len(errs)} errors; first: {first})'
-            if kind == 'break':
-                rc2, log2, _ = run(['lake', 'build', 'kmodel'], cwd=LEAN)
-                if rc2 == 0:
-                    rc3, log3, _ = run([sys.executable, os.path.join(HERE, 'cli_src_compare.py')])
-                    verdict += '; run against the model: ' + log3.strip().split('\n')[-1][:140]
-                else:
-                    verdict += '; kmodel does not build with it'
-            results.append((name, kind, verdict))
-            shutil.rmtree(tmp)
+        workers = queue.Queue()
+        for i in range(min(jobs, len(cases))):
+            w = os.path.join(tmp, f'lean-{i}')
+            shutil.copytree(os.path.join(ROOT, 'lean'), w, symlinks=True)
+            workers.put(w)
+        with ThreadPoolExecutor(max_workers=jobs) as ex:
+            done = list(ex.map(lambda c: run_case(c, tmp, workers), cases))
     finally:
-        shutil.copyfile(backup, GEN)
-        os.remove(backup)
-        run(['lake', 'build', 'KestrelModel.GeneratedCli', 'kmodel'] + TARGETS, cwd=LEAN)
-    ok = True
-    for name, kind, verdict in results:
-        good = ('REFUSED' in verdict or 'PROOF BREAKS' in verdict) if kind == 'break' else 'GO THROUGH' in verdict
-        ok = ok and good
-        print(f'[{"ok" if good else "!!"}] {kind:8} {name}: {verdict}')
-    return 0 if ok else 1
+        if os.environ.get('SELFTEST_KEEP'): print(f'scratch directory kept: {tmp}')
+        else: shutil.rmtree(tmp, ignore_errors=True)
+    wn = max(len(c.name) for c in done)
+    print(f'{"patch".ljust(wn)} | kind           | verdict                | translate / build')
+    print('-' * (wn + 70))
+    for c in done:
+        detail = c.translate if c.build in ('-', '') else f'translates; build {c.build}' if c.translate == 'ok' else f'{c.translate}; build {c.build}'
+        print(f'{c.name.ljust(wn)} | {c.kind.ljust(14)} | {c.verdict.ljust(22)} | {detail}  ({c.secs:.0f} s)')
+    bad = [c for c in done if not c.ok]
+    h = [c for c in done if c.kind == 'harmless']
+    b = [c for c in done if c.kind != 'harmless']
+    print('-' * (wn + 70))
+    for n, (want, why) in sorted(KNOWN.items()):
+        if any(c.name == n for c in done): print(f'known: {n} -> {want}: {why}')
+    print(f'not applicable (diff does not touch {", ".join(TOUCH)}): {len(na)} seeded breaking patches, {len(nb)} seeded harmless patches')
+    print(f'harmless accepted: {sum(c.outcome in ("accepted", "unchanged") for c in h)}/{len(h)}   '
+          f'breaking caught: {sum(c.outcome in ("refused", "proof") for c in b)}/{len(b)} '
+          f'(by a proof: {sum(c.outcome == "proof" for c in b)}, refused: {sum(c.outcome == "refused" for c in b)})   '
+          f'rows as expected: {sum(c.ok for c in done)}/{len(done)}   ({time.time() - t0:.0f} s, {jobs} workers)')
+    if bad:
+        print('NOT AS EXPECTED: ' + ', '.join(c.name for c in bad))
+        return 1
+    print('all rows as expected')
+    return 0
 
 
 if __name__ == '__main__':
